@@ -378,6 +378,9 @@ class GeckoAsyncSpa(Observable):
         if self._protocol is not None:
             self._protocol.disconnect()
             self._protocol = None
+        if self._transport is not None:
+            # Release the UDP endpoint, otherwise every reconnect leaks a socket
+            self._transport.close()
         self._transport = None
         self.unwatch_all()
 
